@@ -2810,6 +2810,16 @@ class LinearOperator(object):
         # Pad the index with empty indices
         index = index + tuple(_noop_index for _ in range(ndimension - len(index)))
 
+        # Integer indices follow python semantics: negative values count from the end, out-of-range values raise
+        normalized_index = []
+        for dim, (idx, size) in enumerate(zip(index, self.shape)):
+            if isinstance(idx, int) and not isinstance(idx, bool):
+                if idx < -size or idx >= size:
+                    raise IndexError(f"index {idx} is out of bounds for dimension {dim} with size {size}")
+                idx = idx + size if idx < 0 else idx
+            normalized_index.append(idx)
+        index = tuple(normalized_index)
+
         # Make the index a tuple again
         *batch_indices, row_index, col_index = index
 
@@ -2827,12 +2837,14 @@ class LinearOperator(object):
 
         # If we're indexing the LT with ints or slices
         # Replace the ints with slices, and we'll just squeeze the dimensions later
+        # (When the row/column indices are absorbed into tensor indices, integers act as tensor indices,
+        # and there is no dimension to squeeze afterwards)
         squeeze_row = False
         squeeze_col = False
-        if isinstance(row_index, int):
+        if isinstance(row_index, int) and not row_col_are_absorbed:
             row_index = slice(row_index, row_index + 1, None)
             squeeze_row = True
-        if isinstance(col_index, int):
+        if isinstance(col_index, int) and not row_col_are_absorbed:
             col_index = slice(col_index, col_index + 1, None)
             squeeze_col = True
 
